@@ -14,16 +14,24 @@
     one instance of a pair never affect the other, for every interleaved history, and the unpickled
     copy behaves exactly like the instance it was pickled from (`pickle_state`,
     `unpickled_immutable_protected`; since the repo fix 4ede29b).
-  False of the code today, with kernel-checked counterexamples that the harness replays on the real
-  code as known findings: `a == b → hash(a) == hash(b)` (`eq_hash_statement_false`, six
-  `eq_hash_counterexample_*`), hash of a deep / unpickled copy with a re-ordered set
-  (`deepcopy_hash_counterexample`, `pickle_hash_counterexample`).  `eq_hash_partial` proves the implication on the region
-  that excludes exactly those spellings.
+  `a == b → hash(a) == hash(b)`: since /repo c4803f1 `Structure.__hash__` hashes a canonical form of
+  what `__eq__` compares (Sem/CanonHash.lean) and the implication is proved IN FULL (`eq_canon_hash`,
+  `deepcopy_canon_hash`, `pickle_canon_hash`).  It was false of the `str(self)`-based hash before
+  that commit: the kernel-checked counterexamples (`eq_hash_statement_false`, the
+  `eq_hash_counterexample_*`, `deepcopy_hash_counterexample`, `pickle_hash_counterexample`) stay as
+  statements about the printed form `str(x)` (`hashKey`), which still tells those spellings apart;
+  `eq_hash_partial` says which instances print alike.  The harness reports the former findings
+  again should they return.
+  Sharing (which objects a copy has in common with the original) is proved on the heap model
+  Sem/AliasC11.lean: `deepcopy_disjoint`, `deepcopy_heap_independent(_back)`,
+  `copy_shares_first_level`, `copy_tables_ok`.
 -/
 import TypedpyModel.Lemmas.EqLemmas
 import TypedpyModel.Lemmas.HashLemmas
 import TypedpyModel.Lemmas.CopyLemmas
 import TypedpyModel.Lemmas.CanonHash
+import TypedpyModel.Lemmas.AliasC11
+import TypedpyModel.Generated.AliasingC11
 import TypedpyModel.Generated.Wrappers
 set_option linter.unusedVariables false
 set_option linter.unusedSimpArgs false
@@ -136,9 +144,10 @@ theorem instEq_trans (d : EqCtx) (a b c : Inst) (hb : okInst d b = true)
     namesEq_trans _ _ _ hn1 hn2⟩
 
 
-/-! ### `a == b → hash(a) == hash(b)` is false of the code today -/
+/-! ### `a == b → str(a) == str(b)` is false: what made `a == b → hash(a) == hash(b)` false of the `str`-based hash (before c4803f1) -/
 
-/-- the full-strength statement for a rendering `R` of Python's `str()` -/
+/-- the full-strength statement for the `str`-based hash (`hash(x) = hash(str(x))`, the code before c4803f1),
+    for a rendering `R` of Python's `str()` -/
 def eq_hash_statement (R : Render) : Prop :=
   ∀ (d : EqCtx) (a b : Inst), instEq d a b = true → hashKey R a = hashKey R b
 
@@ -189,7 +198,8 @@ theorem eq_hash_counterexample_set_frozenset :
         == hashKey { exR with other := fun _ => "frozenset()" } { cls := "A", attrs := [("s", .set true [])] }) = false := by
   decide
 
-/-- the full statement fails for the example rendering -/
+/-- the full statement fails for the example rendering: former findings `eq-not-hash:*`, fixed by c4803f1
+    (`eq_canon_hash` is the statement about the repaired hash) -/
 theorem eq_hash_statement_false : ¬ eq_hash_statement exR := by
   intro h
   have h1 := h {} { cls := "A", attrs := [("x", .int 1)] } { cls := "A", attrs := [("x", .float ⟨1, 1⟩)] }
@@ -212,22 +222,22 @@ theorem copy_eq (R : Render) (d : EqCtx) (x : Inst) :
     an operation on one instance is validated against and applied to that instance only.  (Value
     semantics: that a deep / unpickled copy shares no mutable object with the original is what the
     `pairs` suite establishes on the real code.) -/
-theorem run2_frame (bd : Bool) (tbl : List MethodRec) (O : Oracles) (c : ClassOpts) (fields : List (String × FieldDecl)) :
+theorem run2_frame (bd dh : Bool) (tbl : List MethodRec) (O : Oracles) (c : ClassOpts) (fields : List (String × FieldDecl)) :
     ∀ (h : List (Side × Op)) (p : Inst × Inst),
-      (run2 bd tbl O c fields p h).1 =
-        ((runI bd tbl O c fields p.1 (sideOf .orig h)).1, (runI bd tbl O c fields p.2 (sideOf .copy h)).1)
-      ∧ sideOf .orig (run2 bd tbl O c fields p h).2 = (runI bd tbl O c fields p.1 (sideOf .orig h)).2
-      ∧ sideOf .copy (run2 bd tbl O c fields p h).2 = (runI bd tbl O c fields p.2 (sideOf .copy h)).2
+      (run2 bd dh tbl O c fields p h).1 =
+        ((runI bd dh tbl O c fields p.1 (sideOf .orig h)).1, (runI bd dh tbl O c fields p.2 (sideOf .copy h)).1)
+      ∧ sideOf .orig (run2 bd dh tbl O c fields p h).2 = (runI bd dh tbl O c fields p.1 (sideOf .orig h)).2
+      ∧ sideOf .copy (run2 bd dh tbl O c fields p h).2 = (runI bd dh tbl O c fields p.2 (sideOf .copy h)).2
   | [], p => by simp [run2, runI, sideOf]
   | (.orig, op) :: rest, p => by
-    have ih := run2_frame bd tbl O c fields rest ((stepI bd tbl O c fields p.1 op).1, p.2)
+    have ih := run2_frame bd dh tbl O c fields rest ((stepI bd dh tbl O c fields p.1 op).1, p.2)
     simp only [run2, sideOf, List.filter, List.map, runI] at ih ⊢
     simp only [show ((Side.orig == Side.orig) = true) from rfl, show ((Side.orig == Side.copy) = false) from rfl,
       List.map] at ih ⊢
     simp only [runI]
     exact ⟨ih.1, by rw [ih.2.1], ih.2.2⟩
   | (.copy, op) :: rest, p => by
-    have ih := run2_frame bd tbl O c fields rest (p.1, (stepI bd tbl O c fields p.2 op).1)
+    have ih := run2_frame bd dh tbl O c fields rest (p.1, (stepI bd dh tbl O c fields p.2 op).1)
     simp only [run2, sideOf, List.filter, List.map, runI] at ih ⊢
     simp only [show ((Side.copy == Side.copy) = true) from rfl, show ((Side.copy == Side.orig) = false) from rfl,
       List.map] at ih ⊢
@@ -248,28 +258,28 @@ theorem sideOf_map_copy (ops : List Op) :
 /-- **C11 (deepcopy independent)**: whatever history is applied to the copy, the original is
     unchanged, and the copy goes through exactly the states and outcomes of that history run on it
     alone -/
-theorem deepcopy_independent (bd : Bool) (tbl : List MethodRec) (O : Oracles) (c : ClassOpts)
+theorem deepcopy_independent (bd dh : Bool) (tbl : List MethodRec) (O : Oracles) (c : ClassOpts)
     (fields : List (String × FieldDecl)) (S : SetOrder) (x : Inst) (ops : List Op) :
-    let r := run2 bd tbl O c fields (x, deepcopyI c S x) (ops.map (fun op => (Side.copy, op)))
+    let r := run2 bd dh tbl O c fields (x, deepcopyI c S x) (ops.map (fun op => (Side.copy, op)))
     r.1.1 = x
-    ∧ r.1.2 = (runI bd tbl O c fields (deepcopyI c S x) ops).1
-    ∧ sideOf .copy r.2 = (runI bd tbl O c fields (deepcopyI c S x) ops).2 := by
+    ∧ r.1.2 = (runI bd dh tbl O c fields (deepcopyI c S x) ops).1
+    ∧ sideOf .copy r.2 = (runI bd dh tbl O c fields (deepcopyI c S x) ops).2 := by
   intro r
-  have h := run2_frame bd tbl O c fields (ops.map (fun op => (Side.copy, op))) (x, deepcopyI c S x)
+  have h := run2_frame bd dh tbl O c fields (ops.map (fun op => (Side.copy, op))) (x, deepcopyI c S x)
   rw [(sideOf_map_copy ops).1, (sideOf_map_copy ops).2] at h
   refine ⟨?_, ?_, h.2.2⟩
   · have := congrArg Prod.fst h.1; simpa [runI] using this
   · have := congrArg Prod.snd h.1; simpa using this
 
 /-- the same frame property for an unpickled copy, for every iteration order of its rebuilt sets -/
-theorem unpickled_frame (bd : Bool) (tbl : List MethodRec) (O : Oracles) (c : ClassOpts)
+theorem unpickled_frame (bd dh : Bool) (tbl : List MethodRec) (O : Oracles) (c : ClassOpts)
     (fields : List (String × FieldDecl)) (S : SetOrder) (x : Inst) (ops : List Op) :
-    let r := run2 bd tbl O c fields (x, pickleI S x) (ops.map (fun op => (Side.copy, op)))
+    let r := run2 bd dh tbl O c fields (x, pickleI S x) (ops.map (fun op => (Side.copy, op)))
     r.1.1 = x
-    ∧ r.1.2 = (runI bd tbl O c fields (pickleI S x) ops).1
-    ∧ sideOf .copy r.2 = (runI bd tbl O c fields (pickleI S x) ops).2 := by
+    ∧ r.1.2 = (runI bd dh tbl O c fields (pickleI S x) ops).1
+    ∧ sideOf .copy r.2 = (runI bd dh tbl O c fields (pickleI S x) ops).2 := by
   intro r
-  have h := run2_frame bd tbl O c fields (ops.map (fun op => (Side.copy, op))) (x, pickleI S x)
+  have h := run2_frame bd dh tbl O c fields (ops.map (fun op => (Side.copy, op))) (x, pickleI S x)
   rw [(sideOf_map_copy ops).1, (sideOf_map_copy ops).2] at h
   refine ⟨?_, ?_, h.2.2⟩
   · have := congrArg Prod.fst h.1; simpa [runI] using this
@@ -290,14 +300,14 @@ theorem pickle_state (S : SetOrder) (x : Inst) (hi : x.instantiated = true)
     states and outcomes that the same history produces on the instance it was pickled from —
     immutability and every validation included.  (`hfix`: the rebuilt sets iterate as before, e.g.
     `S = id`, see `rebuildAttrs_id`; for other orders `unpickled_frame` and `pickle_eq` apply.) -/
-theorem unpickled_independent (bd : Bool) (tbl : List MethodRec) (O : Oracles) (c : ClassOpts)
+theorem unpickled_independent (bd dh : Bool) (tbl : List MethodRec) (O : Oracles) (c : ClassOpts)
     (fields : List (String × FieldDecl)) (S : SetOrder) (x : Inst) (ops : List Op)
     (hi : x.instantiated = true) (hfix : rebuildAttrs S x.attrs = x.attrs) :
-    let r := run2 bd tbl O c fields (x, pickleI S x) (ops.map (fun op => (Side.copy, op)))
+    let r := run2 bd dh tbl O c fields (x, pickleI S x) (ops.map (fun op => (Side.copy, op)))
     r.1.1 = x
-    ∧ r.1.2 = (runI bd tbl O c fields x ops).1
-    ∧ sideOf .copy r.2 = (runI bd tbl O c fields x ops).2 := by
-  have h := unpickled_frame bd tbl O c fields S x ops
+    ∧ r.1.2 = (runI bd dh tbl O c fields x ops).1
+    ∧ sideOf .copy r.2 = (runI bd dh tbl O c fields x ops).2 := by
+  have h := unpickled_frame bd dh tbl O c fields S x ops
   rw [pickle_state S x hi hfix] at h ⊢
   exact h
 
@@ -311,18 +321,18 @@ def exImmInst : Inst := { cls := "I", attrs := [("x", .int 1)] }
 /-- an immutable instance stays immutable through a pickle round trip: for every class, every
     instance and every rebuilt-set order, assignment to the unpickled copy of an
     ImmutableStructure is refused and leaves it unchanged -/
-theorem unpickled_immutable_protected (bd : Bool) (tbl : List MethodRec) (O : Oracles) (c : ClassOpts)
+theorem unpickled_immutable_protected (bd dh : Bool) (tbl : List MethodRec) (O : Oracles) (c : ClassOpts)
     (fields : List (String × FieldDecl)) (S : SetOrder) (x : Inst) (f : String) (v : PyVal)
     (hc : c.immutable = true) :
-    stepI bd tbl O c fields (pickleI S x) (.setattr f v) = (pickleI S x, .err .valueErr) := by
+    stepI bd dh tbl O c fields (pickleI S x) (.setattr f v) = (pickleI S x, .err .valueErr) := by
   simp only [stepI, pickleI, hc, Bool.and_self, setattrStep, setattrUndef, if_true]
   split <;> rfl
 
 /-- non-vacuity / former finding `unpickled:immutable-setattr-unprotected`: assignment is refused
     on the instance and on its unpickled copy alike, and the copy `==` the original -/
 theorem unpickled_immutable_example :
-    (stepI Generated.nestedBound Generated.wrappers exO exImm exImmFields exImmInst (.setattr "x" (.int 2))).2 = .err .valueErr
-    ∧ (stepI Generated.nestedBound Generated.wrappers exO exImm exImmFields (pickleI id exImmInst) (.setattr "x" (.int 2))).2
+    (stepI Generated.nestedBound Generated.delitemHook Generated.wrappers exO exImm exImmFields exImmInst (.setattr "x" (.int 2))).2 = .err .valueErr
+    ∧ (stepI Generated.nestedBound Generated.delitemHook Generated.wrappers exO exImm exImmFields (pickleI id exImmInst) (.setattr "x" (.int 2))).2
         = .err .valueErr
     ∧ instEq {} exImmInst (pickleI id exImmInst) = true := by decide
 
@@ -502,20 +512,20 @@ theorem undef_unset_vs_none_example :
     instEq exU exUnset exNone = false ∧ instEq exU exNone exUnset = false
     ∧ PyVal.pyEq (getA exU exUnset "b") undefinedV = true ∧ PyVal.pyEq (getA exU exNone "b") .none = true
     ∧ (hashKey exR exUnset == hashKey exR exNone) = false
-    ∧ instEq exU (stepI Generated.nestedBound Generated.wrappers exO exUC exUFields exUnset (.setattr "b" .none)).1 exNone = true
-    ∧ instEq exU (stepI Generated.nestedBound Generated.wrappers exO exUC exUFields exNone (.setattr "b" (.int 2))).1
+    ∧ instEq exU (stepI Generated.nestedBound Generated.delitemHook Generated.wrappers exO exUC exUFields exUnset (.setattr "b" .none)).1 exNone = true
+    ∧ instEq exU (stepI Generated.nestedBound Generated.delitemHook Generated.wrappers exO exUC exUFields exNone (.setattr "b" (.int 2))).1
         { cls := "C", attrs := [("a", .int 1), ("b", .int 2)], undef := true } = true := by
   decide
 
 /-- on such a class `x.f = None` for a non-required (not immutable) field of a mutable instance
     is never stored: the name is recorded in `_none_fields` and whatever `__dict__` held for it is
     removed (since ed6dbae), so the field reads `None` afterwards -/
-theorem setattr_none_recorded (bd : Bool) (tbl : List MethodRec) (O : Oracles) (c : ClassOpts)
+theorem setattr_none_recorded (bd dh : Bool) (tbl : List MethodRec) (O : Oracles) (c : ClassOpts)
     (fields : List (String × FieldDecl)) (x : Inst) (f : String) (fd : FieldDecl)
     (hu : x.undef = true) (hm : c.immutable = false) (hf : lookup f fields = some fd)
     (hr : c.required.contains f = false)
     (hi : c.immFields.contains f = false ∨ lookup f x.attrs = none) :
-    stepI bd tbl O c fields x (.setattr f .none)
+    stepI bd dh tbl O c fields x (.setattr f .none)
       = ({ x with nones := addName f x.nones, attrs := assocDel f x.attrs }, .ok) := by
   have hg : (c.immFields.contains f && (lookup f x.attrs).isSome) = false := by
     rcases hi with h | h
@@ -527,12 +537,12 @@ theorem setattr_none_recorded (bd : Bool) (tbl : List MethodRec) (O : Oracles) (
 
 /-- … and on an immutable field that already holds a value it is refused and changes nothing
     (since f1caf24), like every other assignment to such a field -/
-theorem setattr_none_immutable_field_refused (bd : Bool) (tbl : List MethodRec) (O : Oracles) (c : ClassOpts)
+theorem setattr_none_immutable_field_refused (bd dh : Bool) (tbl : List MethodRec) (O : Oracles) (c : ClassOpts)
     (fields : List (String × FieldDecl)) (x : Inst) (f : String) (fd : FieldDecl) (w : PyVal)
     (hu : x.undef = true) (hf : lookup f fields = some fd)
     (hr : c.required.contains f = false) (hi : c.immFields.contains f = true)
     (hs : lookup f x.attrs = some w) :
-    stepI bd tbl O c fields x (.setattr f .none) = (x, .err .valueErr) := by
+    stepI bd dh tbl O c fields x (.setattr f .none) = (x, .err .valueErr) := by
   simp only [stepI, setattrUndef, hu, hf, hr, hi, hs, PyVal.isNone, if_true, Bool.false_and,
     Bool.false_eq_true, if_false, Option.isSome_some, Bool.not_true, Bool.not_false, Bool.and_self,
     Bool.true_and]
@@ -553,13 +563,13 @@ theorem pickle_keeps_nones_example :
     the result is `==` `C(a=1, b=None)`, reads `b` as `None`, and is told apart from `C(a=1, b=5)`
     by `==` and by the values read back alike -/
 theorem none_replaces_value_example :
-    (stepI Generated.nestedBound Generated.wrappers exO exUC exUFields
+    (stepI Generated.nestedBound Generated.delitemHook Generated.wrappers exO exUC exUFields
         { cls := "C", attrs := [("a", .int 1), ("b", .int 5)], undef := true } (.setattr "b" .none)).1.nones = ["b"]
-    ∧ instEq exU (stepI Generated.nestedBound Generated.wrappers exO exUC exUFields
+    ∧ instEq exU (stepI Generated.nestedBound Generated.delitemHook Generated.wrappers exO exUC exUFields
         { cls := "C", attrs := [("a", .int 1), ("b", .int 5)], undef := true } (.setattr "b" .none)).1 exNone = true
-    ∧ PyVal.pyEq (getA exU (stepI Generated.nestedBound Generated.wrappers exO exUC exUFields
+    ∧ PyVal.pyEq (getA exU (stepI Generated.nestedBound Generated.delitemHook Generated.wrappers exO exUC exUFields
         { cls := "C", attrs := [("a", .int 1), ("b", .int 5)], undef := true } (.setattr "b" .none)).1 "b") .none = true
-    ∧ instEq exU (stepI Generated.nestedBound Generated.wrappers exO exUC exUFields
+    ∧ instEq exU (stepI Generated.nestedBound Generated.delitemHook Generated.wrappers exO exUC exUFields
         { cls := "C", attrs := [("a", .int 1), ("b", .int 5)], undef := true } (.setattr "b" .none)).1
         { cls := "C", attrs := [("a", .int 1), ("b", .int 5)], undef := true } = false := by
   decide
@@ -569,15 +579,15 @@ theorem none_replaces_value_example :
     — `__dict__` and `_none_fields` — stays `==` what it was; on a not yet set immutable field the
     explicit `None` is recorded as on any other field -/
 theorem none_over_immutable_field_example :
-    (stepI Generated.nestedBound Generated.wrappers exO { exUC with immFields := ["b"] } exUFields
+    (stepI Generated.nestedBound Generated.delitemHook Generated.wrappers exO { exUC with immFields := ["b"] } exUFields
         { cls := "C", attrs := [("a", .int 1), ("b", .int 5)], undef := true } (.setattr "b" .none)).2
         = .err .valueErr
-    ∧ (stepI Generated.nestedBound Generated.wrappers exO { exUC with immFields := ["b"] } exUFields
+    ∧ (stepI Generated.nestedBound Generated.delitemHook Generated.wrappers exO { exUC with immFields := ["b"] } exUFields
         { cls := "C", attrs := [("a", .int 1), ("b", .int 5)], undef := true } (.setattr "b" .none)).1.nones = []
-    ∧ instEq exU (stepI Generated.nestedBound Generated.wrappers exO { exUC with immFields := ["b"] } exUFields
+    ∧ instEq exU (stepI Generated.nestedBound Generated.delitemHook Generated.wrappers exO { exUC with immFields := ["b"] } exUFields
         { cls := "C", attrs := [("a", .int 1), ("b", .int 5)], undef := true } (.setattr "b" .none)).1
         { cls := "C", attrs := [("a", .int 1), ("b", .int 5)], undef := true } = true
-    ∧ instEq exU (stepI Generated.nestedBound Generated.wrappers exO { exUC with immFields := ["b"] } exUFields exUnset
+    ∧ instEq exU (stepI Generated.nestedBound Generated.delitemHook Generated.wrappers exO { exUC with immFields := ["b"] } exUFields exUnset
         (.setattr "b" .none)).1 exNone = true := by
   decide
 
@@ -595,7 +605,7 @@ theorem eq_hash_counterexample_default_absent :
     ∧ (hashKey exR { cls := "C", attrs := [("a", .int 1)] }
         == hashKey exR { cls := "C", attrs := [("a", .int 1), ("b", .int 0)] }) = false
     ∧ sameSpellI { cls := "C", attrs := [("a", .int 1)] } { cls := "C", attrs := [("a", .int 1), ("b", .int 0)] } = false
-    ∧ (stepI Generated.nestedBound Generated.wrappers exO exUC exUFields { cls := "C", attrs := [("a", .int 1), ("b", .int 0)] }
+    ∧ (stepI Generated.nestedBound Generated.delitemHook Generated.wrappers exO exUC exUFields { cls := "C", attrs := [("a", .int 1), ("b", .int 0)] }
         (.delitem "b")).1.attrs = [("a", .int 1)] := by
   refine ⟨by decide, by decide, by decide, by decide, by rfl⟩
 
@@ -709,5 +719,224 @@ theorem eq_canon_hash_example :
     ∧ (canonHashI exH {} { cls := "A", attrs := [("x", .str "a")] }
         == canonHashI exH {} { cls := "A", attrs := [("x", .str "ab")] }) = false := by
   decide
+
+/-- **C11 (deepcopy / pickle keep the repaired hash, for EVERY iteration order of rebuilt sets)**:
+    the findings `deepcopy-hash-differs:set-order` / `pickle-hash-differs:set-order` cannot occur with
+    the canonical hash -/
+theorem deepcopy_canon_hash (H : HashO) (hH : H.Respects) (S : SetOrder) (hS : MemPreserving S)
+    (c : ClassOpts) (d : EqCtx) (x : Inst) (hnd : noDrop c x = true ∨ c.immutable = true)
+    (okx : okInstS d x = true) (oky : okInstS d (deepcopyI c S x) = true) :
+    canonHashI H d (deepcopyI c S x) = canonHashI H d x :=
+  (eq_canon_hash H hH d x _ okx oky (deepcopy_eq S hS c d x hnd)).symm
+
+theorem pickle_canon_hash (H : HashO) (hH : H.Respects) (S : SetOrder) (hS : MemPreserving S)
+    (d : EqCtx) (x : Inst) (okx : okInstS d x = true) (oky : okInstS d (pickleI S x) = true) :
+    canonHashI H d (pickleI S x) = canonHashI H d x :=
+  (eq_canon_hash H hH d x _ okx oky (pickle_eq S hS d x)).symm
+
+/-- the former counterexamples `deepcopy_hash_counterexample` / `pickle_hash_counterexample`: the
+    re-ordered set prints differently but hashes alike under the repaired hash -/
+theorem deepcopy_canon_hash_example :
+    (canonHashI exH {} { cls := "A", attrs := [("s", .set false [.str "a", .int 3])] }
+      == canonHashI exH {} (deepcopyI { name := "A", required := [] } List.reverse
+            { cls := "A", attrs := [("s", .set false [.str "a", .int 3])] })) = true
+    ∧ (hashKey exR { cls := "A", attrs := [("s", .set false [.str "a", .int 3])] }
+        == hashKey exR (pickleI List.reverse { cls := "A", attrs := [("s", .set false [.str "a", .int 3])] })) = false
+    ∧ (canonHashI exH {} { cls := "A", attrs := [("s", .set false [.str "a", .int 3])] }
+        == canonHashI exH {} (pickleI List.reverse { cls := "A", attrs := [("s", .set false [.str "a", .int 3])] })) = true := by
+  decide
+
+/-! ### sharing: `copy.copy`, `copy.deepcopy`, pickle on the heap model (Sem/AliasC11.lean)
+
+  Identity is an address.  The walk `dcItem` is driven by the table regenerated from the code
+  (`Generated.copyRows`); the theorems hold for EVERY table, under the decidable hypothesis that the
+  strict walk succeeds (it fails exactly where an existing object would be handed on: an immutable
+  structure returned as is, a wrapper left bound to an owner that is not being copied). -/
+
+section Sharing
+open Typedpy.Alias Typedpy.AliasC11
+
+def heapRoots : Item → List Nat
+  | .ref a => [a]
+  | .atom _ => []
+
+theorem c11_newClosed_init (h : Heap) : NewClosed h.next h :=
+  fun _ ha hlt => absurd (Nat.lt_of_lt_of_le hlt ha) (Nat.lt_irrefl _)
+
+/-- **C11 (deep / unpickled copy shares nothing)**: when the strict walk succeeds it is the real
+    walk; it leaves every pre-existing cell alone; everything reachable from the copy was allocated
+    by the walk, everything reachable from the original existed before: the two reachable cell sets
+    are disjoint -/
+theorem deepcopy_disjoint (T : CKind → KindRow) (fuel : Nat) (h : Heap) (x : Nat) (h' : Heap) (y : Item)
+    (cb : ClosedBelow h.next h) (hx : x < h.next)
+    (e : dcItem true T fuel false h (.ref x) = (h', some y)) :
+    dcItem false T fuel false h (.ref x) = (h', some y)
+    ∧ (∀ a, a < h.next → h'.cells a = h.cells a)
+    ∧ (∀ b, Held h' (heapRoots y) b → h.next ≤ b ∧ b < h'.next)
+    ∧ (∀ b, Reach h' x b → b < h.next) := by
+  have fr := dcItem_frame true T fuel false h (.ref x) h' _ e
+  have fs := dcItem_fresh h.next T fuel false h (.ref x) h' y (Nat.le_refl _) (c11_newClosed_init h) e
+  refine ⟨dcItem_strict_agree T fuel false h (.ref x) h' y e, fr.2, ?_, ?_⟩
+  · intro b hb
+    obtain ⟨r, hr, rb⟩ := hb
+    cases y with
+    | atom v => simp [heapRoots] at hr
+    | ref a =>
+      simp only [heapRoots, List.mem_singleton] at hr
+      subst hr
+      exact reach_new fs.1 (fs.2 r rfl) rb
+  · intro b rb
+    exact reach_below (closedBelow_frame cb fr) hx rb
+
+/-- … hence NO history of native mutations applied to the copy (any sequence of writes into objects
+    reachable from it, and into objects created on the way) changes anything that existed before:
+    every observation of the original, to any depth, is what it was -/
+theorem deepcopy_heap_independent (T : CKind → KindRow) (fuel : Nat) (h : Heap) (x : Nat) (h' : Heap) (y : Item)
+    (cb : ClosedBelow h.next h) (hx : x < h.next)
+    (e : dcItem true T fuel false h (.ref x) = (h', some y))
+    (acts : List Act) (adm : AdmissibleAll h' (heapRoots y) acts) (n : Nat) :
+    (∀ a, a < h.next → (runScript h' (heapRoots y) acts).1.cells a = h.cells a)
+    ∧ observeN n (runScript h' (heapRoots y) acts).1 (.ref x) = observeN n h (.ref x) := by
+  obtain ⟨_, fr2, hnew, _⟩ := deepcopy_disjoint T fuel h x h' y cb hx e
+  have fr := dcItem_frame true T fuel false h (.ref x) h' _ e
+  have sp := script_protects (fun a => a < h.next) acts h' (heapRoots y)
+    (fun a ha hlt => absurd hlt (Nat.not_lt.mpr (hnew a ha).1))
+    (fun a ha => Nat.lt_of_lt_of_le ha fr.1) adm
+  have cells : ∀ a, a < h.next → (runScript h' (heapRoots y) acts).1.cells a = h.cells a := by
+    intro a ha; rw [sp.1 a ha, fr2 a ha]
+  refine ⟨cells, ?_⟩
+  apply observe_agree (fun a => a < h.next) cells (fun a ha k hk => cb a ha k hk) n
+  intro a ea
+  simp only [Item.ref.injEq] at ea
+  subst ea
+  exact hx
+
+/-- … and NO history of native mutations applied to the original (or to anything else that
+    existed before) changes any observation of the copy -/
+theorem deepcopy_heap_independent_back (T : CKind → KindRow) (fuel : Nat) (h : Heap) (x : Nat) (h' : Heap) (y : Item)
+    (cb : ClosedBelow h.next h) (hx : x < h.next)
+    (e : dcItem true T fuel false h (.ref x) = (h', some y))
+    (K : List Nat) (hK : ∀ r, r ∈ K → r < h.next)
+    (acts : List Act) (adm : AdmissibleAll h' K acts) (n : Nat) :
+    observeN n (runScript h' K acts).1 y = observeN n h' y := by
+  have fr := dcItem_frame true T fuel false h (.ref x) h' _ e
+  have fs := dcItem_fresh h.next T fuel false h (.ref x) h' y (Nat.le_refl _) (c11_newClosed_init h) e
+  have cb' := closedBelow_frame cb fr
+  have sp := script_protects (fun a => h.next ≤ a ∧ a < h'.next) acts h' K
+    (by
+      intro a ha hp
+      obtain ⟨r, hr, rb⟩ := ha
+      exact absurd (reach_below cb' (hK r hr) rb) (Nat.not_lt.mpr hp.1))
+    (fun a ha => ha.2) adm
+  apply observe_agree (fun a => h.next ≤ a ∧ a < h'.next)
+    (fun a ha => sp.1 a ha) (fun a ha k hk => fs.1 a ha.1 ha.2 k hk) n
+  intro a ea
+  exact fs.2 a ea
+
+/-- **C11 (shallow copy shares exactly the first level)**: `copy.copy` of a structure (a row with
+    mode `shallow`) is a new cell with the very same items — same values, same references — and
+    nothing that existed is touched -/
+theorem copy_shares_first_level (T : CKind → KindRow) (h : Heap) (x : Nat)
+    (hk : (kindOfTag (h.cells x).tag).isWrapper = false)
+    (hm : (T (kindOfTag (h.cells x).tag)).mode = .shallow) :
+    copyTop T h x = ((h.alloc (h.cells x)).1, some (.ref h.next))
+    ∧ (h.alloc (h.cells x)).1.cells h.next = h.cells x
+    ∧ ((h.alloc (h.cells x)).1.cells h.next).kids = (h.cells x).kids
+    ∧ (∀ a, a < h.next → (h.alloc (h.cells x)).1.cells a = h.cells a) := by
+  have hc : (h.alloc (h.cells x)).1.cells h.next = h.cells x := by simp [Heap.alloc]
+  refine ⟨?_, hc, by rw [hc], (frame_alloc h _).2⟩
+  simp only [copyTop, hk, Bool.false_eq_true, if_false, hm, allocLike, Heap.alloc]
+
+/-- the rows of a wrapper that keep copies apart: the copy is a plain container, or is bound to the
+    copied owner, and taking it does not touch the original owner -/
+def wrapperRowSafe (r : CopyRow) : Bool :=
+  !r.ownerMutated && (r.back == .detach || r.back == .memoOrDetach || r.back == .memoOrCopyOwner)
+
+/-- the wrapper rows behind the findings `wrapper-copy-*` (the table of 58bf716) -/
+def unsafeWrapperRows : List CopyRow := [
+  { op := .copy, kind := .listStruct, mode := .shallow, back := .owner, ownerMutated := true, astMode := "owner", agree := true },
+  { op := .copy, kind := .dictStruct, mode := .shallow, back := .owner, ownerMutated := false, astMode := "owner", agree := true },
+  { op := .deepcopy, kind := .listStruct, mode := .deep, back := .memoOrOwner, ownerMutated := false, astMode := "memoOrOwner", agree := true },
+  { op := .deepcopy, kind := .dictStruct, mode := .deep, back := .memoOrOwner, ownerMutated := false, astMode := "memoOrOwner", agree := true },
+  { op := .deepcopy, kind := .dequeStruct, mode := .deep, back := .memoOrOwner, ownerMutated := false, astMode := "memoOrOwner", agree := true }]
+
+/-- the repaired rows (proposed_fixes/C11-wrapper-copies-detached.diff) -/
+def repairedWrapperRows : List CopyRow := [
+  { op := .copy, kind := .listStruct, mode := .shallow, back := .detach, ownerMutated := false, astMode := "detach", agree := true },
+  { op := .copy, kind := .dictStruct, mode := .shallow, back := .detach, ownerMutated := false, astMode := "detach", agree := true },
+  { op := .deepcopy, kind := .listStruct, mode := .deep, back := .memoOrDetach, ownerMutated := false, astMode := "memoOrDetach", agree := true },
+  { op := .deepcopy, kind := .dictStruct, mode := .deep, back := .memoOrDetach, ownerMutated := false, astMode := "memoOrDetach", agree := true },
+  { op := .deepcopy, kind := .dequeStruct, mode := .deep, back := .memoOrDetach, ownerMutated := false, astMode := "memoOrDetach", agree := true }]
+
+/-- obligation re-checked against the regenerated table on every run: the source idioms agree with
+    the identity probe; structures are copied the way the statement needs (deep copy and pickle
+    rebuild a mutable structure, pickle rebuilds an immutable one too, deepcopy hands it back as it
+    is or rebuilds it — never a half copy); every wrapper row is safe or one of the listed findings.
+    (What `copy.copy` does is not constrained by the statement: `copy_shares_first_level` describes
+    a `shallow` row, which is what today's table has.) -/
+theorem copy_tables_ok :
+    Generated.copyRows.all (fun r => r.agree) = true
+    ∧ (projOf Generated.copyRows .deepcopy .structure).mode = .deep
+    ∧ (projOf Generated.copyRows .deepcopy .immStructure).mode ≠ .shallow
+    ∧ (projOf Generated.copyRows .pickle .structure).mode = .deep
+    ∧ (projOf Generated.copyRows .pickle .immStructure).mode = .deep
+    ∧ Generated.copyRows.all (fun r => !r.kind.isWrapper || wrapperRowSafe r || unsafeWrapperRows.contains r) = true := by
+  decide
+
+/-- `x = A(arr=[1, [..]], m={..}, n=B(arr=[..]))`: cell 0 = x, 1 = x.arr (bound to 0), 2 = an untyped
+    list inside, 3 = x.m (bound to 0), 4 = the nested structure, 5 = its wrapper (bound to 4) -/
+def exHeap : Heap := Heap.ofList [
+  ⟨"Structure", [("arr", .ref 1), ("m", .ref 3), ("n", .ref 4), ("k", .atom 7)]⟩,
+  ⟨"_ListStruct", [("0", .atom 1), ("1", .ref 2), ("_instance", .ref 0)]⟩,
+  ⟨"list", [("0", .atom 5)]⟩,
+  ⟨"_DictStruct", [("a", .atom 1), ("_instance", .ref 0)]⟩,
+  ⟨"Structure", [("arr", .ref 5)]⟩,
+  ⟨"_DequeStruct", [("0", .atom 9), ("_instance", .ref 4)]⟩]
+
+/-- non-vacuity on today's table: the strict deep copy / pickle round trip of `x` succeed, allocate
+    six new cells, share no cell with `x` (to depth 6), leave the six old cells as they were, and
+    the copy reads back like `x`; `copy.copy(x)` shares exactly the first-level values -/
+theorem deepcopy_disjoint_example :
+    (match copyOp Generated.copyRows .deepcopy true 8 exHeap 0 with
+     | (h', some y) => h'.next == 12 && sameBelow 6 exHeap h'
+         && (sharedPaths 6 h' (reachList 6 exHeap (.ref 0)) [] y).isEmpty
+         && Tree.beq (observeN 6 h' y) (observeN 6 exHeap (.ref 0))
+     | _ => false) = true
+    ∧ (match copyOp Generated.copyRows .pickle true 8 exHeap 0 with
+     | (h', some y) => sameBelow 6 exHeap h' && (sharedPaths 6 h' (reachList 6 exHeap (.ref 0)) [] y).isEmpty
+     | _ => false) = true
+    ∧ (match copyOp Generated.copyRows .copy false 8 exHeap 0 with
+     | (h', some y) => sameBelow 6 exHeap h' && sharedPaths 1 h' (reachList 6 exHeap (.ref 0)) [] y == [["arr"], ["m"], ["n"]]
+     | _ => false) = true := by
+  decide
+
+/-- findings `wrapper-copy-bound-to-owner:deepcopy:*` (the rows of 58bf716): `copy.deepcopy(x.arr)`
+    taken on its own is a new wrapper whose back-reference is the ORIGINAL owner — the copy reaches
+    `x` (and through it everything `x` holds), so the strict walk fails; with the repaired rows the
+    copy is a detached plain list that shares nothing -/
+theorem wrapper_deepcopy_reaches_owner :
+    (match copyOp unsafeWrapperRows .deepcopy false 8 exHeap 1 with
+     | (h', some y) => sharedPaths 1 h' [0] [] y == [["_instance"]]
+     | _ => false) = true
+    ∧ (copyOp unsafeWrapperRows .deepcopy true 8 exHeap 1).2.isNone = true
+    ∧ (match copyOp repairedWrapperRows .deepcopy true 8 exHeap 1 with
+     | (h', some y) => (sharedPaths 6 h' (reachList 6 exHeap (.ref 0)) [] y).isEmpty && sameBelow 6 exHeap h'
+     | _ => false) = true := by
+  decide
+
+/-- finding `wrapper-copy-mutates-owner:copy:list`: `copy.copy(x.arr)` re-assigns `x.arr` (cell 0
+    changes: it now holds a new wrapper with the items stored twice) and returns a wrapper bound to
+    `x`; with the repaired rows nothing that existed changes and the copy is a plain list -/
+theorem wrapper_copy_mutates_owner :
+    (match copyOp unsafeWrapperRows .copy false 8 exHeap 1 with
+     | (h', some y) => !sameBelow 6 exHeap h' && (h'.cells 0).items.contains ("arr", .ref 6)
+         && (h'.cells 6).items.length == 5 && sharedPaths 1 h' [0] [] y == [["_instance"]]
+     | _ => false) = true
+    ∧ (match copyOp repairedWrapperRows .copy false 8 exHeap 1 with
+     | (h', some y) => sameBelow 6 exHeap h' && (h'.cells 6).tag == "list" && (sharedPaths 1 h' [0] [] y).isEmpty
+     | _ => false) = true := by
+  decide
+
+end Sharing
 
 end Typedpy.C11
